@@ -113,6 +113,61 @@ theorem C14_location (binding : String) (loc loc' : Bytes) (h : checkEndpointLoc
     simp at h
     exact h
 
+/-- a location that survives `checkEndpointLocation` is empty or has an http(s) scheme -/
+def SafeLoc (l : Bytes) : Prop :=
+  l = [] ∨ ∃ scheme rest, getScheme (cutFragment l) = some (scheme, rest) ∧ (lower scheme = http ∨ lower scheme = https)
+
+theorem check_safe (binding : String) (loc loc' : Bytes) (h : checkEndpointLocation binding loc = .ok loc') : SafeLoc loc' := by
+  have hh := C14_location binding loc loc' h
+  by_cases hk : knownBindings.contains binding = true
+  · obtain ⟨he, _, sch, rest, hs, hok⟩ := hh.1 hk
+    rw [he]
+    exact Or.inr ⟨sch, rest, hs, hok⟩
+  · exact Or.inl (hh.2 (by simpa using hk))
+
+/-- **Both attributes of both endpoint types**: whatever `Endpoint.UnmarshalXML` /
+    `IndexedEndpoint.UnmarshalXML` leave in Location and ResponseLocation is empty or http(s). -/
+theorem C14_endpoint_attrs (binding : String) (loc resp loc' resp' : Bytes)
+    (h : unmarshalEndpoint binding loc resp = .ok (loc', resp')) : SafeLoc loc' ∧ SafeLoc resp' := by
+  unfold unmarshalEndpoint at h
+  split at h
+  · simp at h
+  · simp at h
+  · rename_i l hl
+    split at h
+    · simp at h
+      exact ⟨h.1 ▸ check_safe _ _ _ hl, Or.inl h.2⟩
+    · split at h
+      · simp at h
+      · simp at h
+      · rename_i r hr
+        simp at h
+        exact ⟨h.1 ▸ check_safe _ _ _ hl, h.2 ▸ check_safe _ _ _ hr⟩
+
+theorem C14_indexed_endpoint_attrs (binding : String) (loc : Bytes) (resp : Option Bytes) (loc' : Bytes)
+    (resp' : Option Bytes) (h : unmarshalIndexedEndpoint binding loc resp = .ok (loc', resp')) :
+    SafeLoc loc' ∧ ∀ r, resp' = some r → SafeLoc r := by
+  unfold unmarshalIndexedEndpoint at h
+  split at h
+  · simp at h
+  · simp at h
+  · rename_i l hl
+    split at h
+    · simp at h
+      exact ⟨h.1 ▸ check_safe _ _ _ hl, fun r hr => by rw [← h.2] at hr; simp at hr⟩
+    · split at h
+      · simp at h
+      · simp at h
+      · rename_i r0 x hx
+        simp at h
+        refine ⟨h.1 ▸ check_safe _ _ _ hl, ?_⟩
+        intro r hr
+        rw [← h.2] at hr
+        split at hr
+        · simp at hr
+        · simp at hr
+          exact hr ▸ check_safe _ _ _ hx
+
 /-- script-bearing schemes are rejected for every standard binding -/
 theorem C14_rejects_javascript :
     ∀ b ∈ knownBindings, (checkEndpointLocation b
